@@ -8,6 +8,8 @@ pub fn run(rep: &Report) -> bool {
     match rep.prop.as_str() {
         "C01" => props::c01::run(rep),
         "C03" => props::c03::run(rep),
+        "C13" => props::c13::run(rep),
+        "C14" => props::c14::run(rep),
         "C16" => props::c16::run(rep),
         "C17" => props::c17::run(rep),
         "C19" => props::c19::run(rep),
@@ -50,6 +52,8 @@ pub fn replay(rep: &Report, path: &str) -> i32 {
     match rep.prop.as_str() {
         "C01" => props::c01::replay(rep, &stage, &j),
         "C03" => props::c03::replay(rep, &stage, &j),
+        "C13" => props::c13::replay(rep, &stage, &j),
+        "C14" => props::c14::replay(rep, &stage, &j),
         "C16" => props::c16::replay(rep, &stage, &j),
         "C17" => props::c17::replay(rep, &stage, &j),
         "C19" => props::c19::replay(rep, &stage, &j),
